@@ -204,6 +204,8 @@ def _grid_job(arg):
             s = dict(sc, sched_seed=case["seed"] * 16 + k)
             if k > 0:
                 s["np"] = 2 + (k + sc["np"]) % 3
+            if k % 2 == 1:
+                s["pipe_capacity"] = 4096  # smaller than one pickled contour
             r = engines.case_c13_grid({"scenario": s}, ref_path=ref_path, ref_res=ref)
             r["index"] = index
             out.append(r)
